@@ -36,12 +36,13 @@ ACTIVE_EXCLUSIONS = {
     'C13-clone-loses-defaults',
     'C13-document-replaceChild-self',
     'C13-setNamedItemNS-breaks-sort-order',
+    'C14-removeAttributeNS-keeps-id',
 }
 _no = os.environ.get('VERIF_C13_NOEXCL', '')
 if _no == 'all': ACTIVE_EXCLUSIONS = set()
 elif _no: ACTIVE_EXCLUSIONS -= set(_no.split(','))
 
-OPTABLE = dh.expand(dh.CORE_OPS)
+OPTABLE = dh.expand(dh.CORE_OPS) + dh.expand(dh.ID_OPS)      # new kinds are appended: stored cases keep their meaning
 MAXOPS = {'quick': 60, 'thorough': 200}
 
 def op_strategy():
@@ -51,13 +52,14 @@ def op_strategy():
 def case_strategy(maxops):
     return st.fixed_dictionaries({
         'ndocs': st.integers(1, 3),
-        'flags': st.one_of(st.none(), st.integers(0, 127)),
+        'flags': st.one_of(st.none(), st.integers(0, 255)),
+        'idpre': st.sampled_from([0, 1, 1, 2, 3]),
         'pre': st.integers(0, 3),
         'ops': st.integers(1, maxops).flatmap(lambda n: st.lists(op_strategy(), min_size=n, max_size=n)),
     })
 
 def make_case(c):
-    return {'setup': {'ndocs': c['ndocs'], 'flags': c['flags'], 'pre': c['pre']}, 'ops': [list(o) for o in c['ops']], 'excl': sorted(ACTIVE_EXCLUSIONS), 'gen': 2}
+    return {'setup': {'ndocs': c['ndocs'], 'flags': c['flags'], 'pre': c['pre'], 'idpre': c['idpre']}, 'ops': [list(o) for o in c['ops']], 'excl': sorted(ACTIVE_EXCLUSIONS), 'gen': 2, 'idq': True}
 
 def run_case(case, ex):
     return dh.run_case(case, ex, case.get('optable') or OPTABLE)     # witnesses may carry their own (smaller) op table
